@@ -65,7 +65,11 @@ func runGates(tier string, seed int64, phase string) {
 	}
 	for _, lang := range langs {
 		recByEntropy(nil, lang, Event{"fam": "nil"})
-		for n := 0; n <= 4096; n++ {
+		maxLen := 4096
+		if tier != "quick" {
+			maxLen = 16384
+		}
+		for n := 0; n <= maxLen; n++ {
 			maybeCut()
 			recByEntropy(r.bytes(n), lang, Event{"fam": "len"})
 		}
@@ -79,7 +83,11 @@ func runGates(tier string, seed int64, phase string) {
 	src := &scriptReader{fill: newRng(seed, "gates/bytes"), after: "data"}
 	swapSource(src, "counting")
 	for _, lang := range langs {
-		for n := int64(-4096); n <= 4096; n++ {
+		w := int64(4096)
+		if tier != "quick" {
+			w = 20000
+		}
+		for n := -w; n <= w; n++ {
 			maybeCut()
 			recNewMnemonic(n, lang, Event{"fam": "count"})
 		}
@@ -144,7 +152,7 @@ func runListSource() {
 func runListCover(tier string, seed int64) {
 	covSizes := []int{16}
 	if tier != "quick" {
-		covSizes = []int{16, 24, 32}
+		covSizes = []int{16, 20, 24, 28, 32}
 	}
 	for pass := 0; pass < 2; pass++ {
 		runListCoverPass(tier, seed+int64(pass)*7919, covSizes)
